@@ -32,8 +32,9 @@ func (node *tagForNode) Execute(ctx *ExecutionContext, writer TemplateWriter) (f
 	}
 
 	// Is it a loop in a loop?
-	if parentloop != nil {
-		loopInfo.Parentloop = parentloop.(*tagForLoopInformation)
+	if pl, ok := parentloop.(*tagForLoopInformation); ok {
+		// (a template may bind the name "forloop" to something else, e.g. with set)
+		loopInfo.Parentloop = pl
 	}
 
 	// Register loopInfo in public context
